@@ -3,6 +3,7 @@ import BigDec.Proofs.Arith
 import BigDec.Proofs.InvAccuracy
 import BigDec.Proofs.InvTerm
 import BigDec.Proofs.InvGuess
+import BigDec.Proofs.InvGuessBackup
 import BigDec.Props.C14
 import BigDec.Props.C06
 import BigDec.Proofs.DisplayLen
@@ -555,5 +556,144 @@ theorem C12_inverse_total_main_path {est : Nat → Nat} (hest : EstOK est) (n : 
   obtain ⟨g, hg1, hg2, hg3⟩ := C12_guess_premise n scale hn hb
   obtain ⟨R, hR1, hR2, hR3⟩ := C12_inverse_total hest n scale p m g fuel hn hp hg2 hg3 hfuel
   exact ⟨g, R, hg1, hR1, hR2, hR3⟩
+
+
+/-- pure arithmetic for the back-up guess: `r ∈ [1/2, 1)`, `W` within 2% of `L ∈ [0.693, 0.6932]`,
+    `E ∈ [0.993, 1.008]` -/
+theorem guess_product_bound (r W E L : ℝ) (hr1 : 1 / 2 ≤ r) (hr2 : r < 1) (hL1 : 693 / 1000 ≤ L) (hL2 : L ≤ 6932 / 10000)
+    (hW1 : 98 / 100 * L ≤ W) (hW2 : W ≤ 102 / 100 * L) (e1 : 993 / 1000 ≤ E) (e2 : E ≤ 1008 / 1000) :
+    |1 - r * W * E| ≤ 94 / 100 := by
+  have hWlo : 679 / 1000 ≤ W := by linarith
+  have hWhi : W ≤ 7071 / 10000 := by linarith
+  have hrW1 : 339 / 1000 ≤ r * W := by nlinarith
+  have hrW2 : r * W ≤ 7071 / 10000 := by nlinarith
+  have hP1 : 336 / 1000 ≤ r * W * E := by nlinarith
+  have hP2 : r * W * E ≤ 713 / 1000 := by nlinarith
+  rw [abs_le]; constructor <;> linarith
+
+/-- the fractional part `approx_scale - approx_scale_int` handed to `exp10` -/
+def backupFrac (b : Nat) : ℚ := ((backupSplit b).2.1 : ℚ) / ((backupSplit b).2.2 : ℚ)
+
+/-- **the premise holds on the back-up path too** (magnitudes of 1075 to 2^32 bits), up to its float
+    kernel: if the f32 factor `(LN_2 * exp10(-frac)) as f32` handed to `from_f32` is finite, positive
+    and within 2% of `ln2 · 10^-frac` (libm's `exp10`, one f64 product and the cast are accurate to a few
+    units of 10^-8), then the guess - that f32 read exactly, `scale += trunc(bits·LOG10_2)`,
+    `scale -= scale` - is a positive decimal within 94% of `1/x`.  What is proved is the bookkeeping the
+    code does around the float kernel: the f64 product `bits · LOG10_2` (two roundings), the integer /
+    fraction split, and that `10^-(int+frac)` is `2^-bits` up to 0.7% for every such bit length
+    (`backupApprox_log`: `log10 2` between its convergents, from two kernel-evaluated power inequalities). -/
+theorem C12_backup_guess_premise (n : Nat) (scale : Int) (hn : 0 < n) (hb2 : n.log2 + 1 ≤ 2 ^ 32) (v32 : Nat)
+    (hfin : (v32 / 2 ^ 23) % 2 ^ 8 ≠ 2 ^ 8 - 1)
+    (hv : |((floatValQ 8 23 v32 : ℚ) : ℝ) -
+        ((F64.valQ ln2Bits : ℚ) : ℝ) * Real.exp (-((backupFrac (n.log2 + 1) : ℚ) : ℝ) * Real.log 10)| ≤
+      1 / 50 * (((F64.valQ ln2Bits : ℚ) : ℝ) * Real.exp (-((backupFrac (n.log2 + 1) : ℚ) : ℝ) * Real.log 10))) :
+    ∃ g, invGuessBackup (n.log2 + 1) scale v32 = some g ∧ 0 < g.value ∧
+      |1 - (Dec.mk n scale).value * g.value| ≤ 94 / 100 := by
+  obtain ⟨d, hd1, hd2⟩ := C14_ofF32_exact v32 hfin
+  obtain ⟨b, hbdef⟩ : ∃ b, b = n.log2 + 1 := ⟨_, rfl⟩
+  rw [← hbdef] at hv hb2 ⊢
+  have hb1 : 1 ≤ b := by omega
+  obtain ⟨I, hI⟩ : ∃ I : Nat, I = (backupSplit b).1 := ⟨_, rfl⟩
+  refine ⟨⟨d.int, d.scale + (I : Int) - scale⟩, ?_, ?_, ?_⟩
+  · unfold invGuessBackup
+    rw [hd1, hI]; rfl
+  all_goals
+    -- the value algebra: x · g = n · V · 10^-I
+    have hg : (Dec.mk d.int (d.scale + (I : Int) - scale)).value = d.value * (10 : ℚ) ^ (-(I : Int)) * (10 : ℚ) ^ scale := by
+      unfold Dec.value
+      simp only
+      rw [show -(d.scale + (I : Int) - scale) = -d.scale + (-(I : Int)) + scale by ring,
+        zpow_add₀ (by norm_num : (10 : ℚ) ≠ 0), zpow_add₀ (by norm_num : (10 : ℚ) ≠ 0)]; ring
+    -- reals
+    obtain ⟨L, hL⟩ : ∃ L : ℝ, L = ((F64.valQ ln2Bits : ℚ) : ℝ) := ⟨_, rfl⟩
+    have hL1 : (693 / 1000 : ℝ) ≤ L := by rw [hL, valQ_ln2]; push_cast; norm_num
+    have hL2 : L ≤ 6932 / 10000 := by rw [hL, valQ_ln2]; push_cast; norm_num
+    obtain ⟨f, hf⟩ : ∃ f : ℝ, f = ((backupFrac b : ℚ) : ℝ) := ⟨_, rfl⟩
+    rw [← hL, ← hf] at hv
+    obtain ⟨V, hV⟩ : ∃ V : ℝ, V = ((d.value : ℚ) : ℝ) := ⟨_, rfl⟩
+    rw [← hd2, ← hV] at hv
+    have hEpos : 0 < Real.exp (-f * Real.log 10) := Real.exp_pos _
+    have hv' := abs_le.mp hv
+    have hVpos : 0 < V := by nlinarith [mul_pos (by linarith : (0 : ℝ) < L) hEpos]
+  · rw [hg]
+    have : 0 < d.value := by
+      have : (0 : ℝ) < ((d.value : ℚ) : ℝ) := by rw [← hV]; exact hVpos
+      exact_mod_cast this
+    exact mul_pos (mul_pos this (zpow_pos (by norm_num) _)) (zpow_pos (by norm_num) _)
+  · have hx : (Dec.mk n scale).value * (Dec.mk d.int (d.scale + (I : Int) - scale)).value =
+        (n : ℚ) * d.value * (10 : ℚ) ^ (-(I : Int)) := by
+      rw [hg]
+      unfold Dec.value
+      simp only
+      have : (10 : ℚ) ^ (-scale) * (10 : ℚ) ^ scale = 1 := by
+        rw [← zpow_add₀ (by norm_num : (10 : ℚ) ≠ 0)]; simp
+      push_cast
+      calc (n : ℚ) * (10 : ℚ) ^ (-scale) * ((d.int : ℚ) * (10 : ℚ) ^ (-d.scale) * (10 : ℚ) ^ (-(I : Int)) * (10 : ℚ) ^ scale)
+          = (n : ℚ) * ((d.int : ℚ) * (10 : ℚ) ^ (-d.scale)) * (10 : ℚ) ^ (-(I : Int)) * ((10 : ℚ) ^ (-scale) * (10 : ℚ) ^ scale) := by ring
+        _ = _ := by rw [this, mul_one]
+    rw [hx]
+    -- the integer and fractional parts recombine to the f64 product
+    have hden := F64.val_den_pos (backupApprox b)
+    have hA : ((F64.valQ (backupApprox b) : ℚ) : ℝ) = (I : ℝ) + f := by
+      rw [hf, hI]
+      unfold backupFrac backupSplit F64.valQ
+      simp only
+      have hdm := Nat.div_add_mod (F64.val (backupApprox b)).1 (F64.val (backupApprox b)).2
+      have hdq : ((F64.val (backupApprox b)).2 : ℚ) ≠ 0 := by exact_mod_cast (by omega : (F64.val (backupApprox b)).2 ≠ 0)
+      have hcast : ((F64.val (backupApprox b)).1 : ℚ) =
+          ((F64.val (backupApprox b)).2 : ℚ) * (((F64.val (backupApprox b)).1 / (F64.val (backupApprox b)).2 : Nat) : ℚ) +
+          (((F64.val (backupApprox b)).1 % (F64.val (backupApprox b)).2 : Nat) : ℚ) := by exact_mod_cast hdm.symm
+      have : ((F64.val (backupApprox b)).1 : ℚ) / ((F64.val (backupApprox b)).2 : ℚ) =
+          (((F64.val (backupApprox b)).1 / (F64.val (backupApprox b)).2 : Nat) : ℚ) +
+          (((F64.val (backupApprox b)).1 % (F64.val (backupApprox b)).2 : Nat) : ℚ) / ((F64.val (backupApprox b)).2 : ℚ) := by
+        conv_lhs => rw [hcast]
+        field_simp
+      rw [this]; push_cast; ring
+    have hlog := backupApprox_log b hb1 hb2
+    rw [hA] at hlog
+    -- 10^-I as an exponential
+    have h10I : (((10 : ℚ) ^ (-(I : Int)) : ℚ) : ℝ) = Real.exp (-(I : ℝ) * Real.log 10) := by
+      push_cast
+      rw [zpow_neg, zpow_natCast, neg_mul, Real.exp_neg, Real.exp_nat_mul, Real.exp_log (by norm_num)]
+    -- 2^b as an exponential
+    have h2b : ((2 : ℝ)) ^ b = Real.exp ((b : ℝ) * Real.log 2) := by
+      rw [Real.exp_nat_mul, Real.exp_log (by norm_num)]
+    obtain ⟨t, ht⟩ : ∃ t : ℝ, t = (b : ℝ) * Real.log 2 - ((I : ℝ) + f) * Real.log 10 := ⟨_, rfl⟩
+    have htabs : |t| ≤ 7 / 1000 := by rw [ht, abs_sub_comm]; exact hlog
+    obtain ⟨e1, e2⟩ := exp_small t htabs
+    -- E_f · 10^-I = exp t / 2^b
+    have hcomb : Real.exp (-f * Real.log 10) * Real.exp (-(I : ℝ) * Real.log 10) = Real.exp t / (2 : ℝ) ^ b := by
+      rw [h2b, ← Real.exp_add, ← Real.exp_sub, ht]; congr 1; ring
+    -- n / 2^b ∈ [1/2, 1)
+    obtain ⟨l1, l2⟩ := F64.log2_bounds n hn
+    have hn1 : (2 : ℝ) ^ b ≤ 2 * (n : ℝ) := by
+      have : 2 ^ b ≤ 2 * n := by rw [hbdef, pow_succ]; omega
+      exact_mod_cast this
+    have hn2 : (n : ℝ) < (2 : ℝ) ^ b := by
+      have : n < 2 ^ b := by rw [hbdef]; exact l2
+      exact_mod_cast this
+    have h2bpos : (0 : ℝ) < (2 : ℝ) ^ b := by positivity
+    -- assemble in ℝ
+    have hreal : |1 - (n : ℝ) * V * Real.exp (-(I : ℝ) * Real.log 10)| ≤ 94 / 100 := by
+      obtain ⟨r, hr⟩ : ∃ r : ℝ, r = (n : ℝ) / (2 : ℝ) ^ b := ⟨_, rfl⟩
+      have hr1 : 1 / 2 ≤ r := by rw [hr, le_div_iff₀ h2bpos]; linarith
+      have hr2 : r < 1 := by rw [hr, div_lt_one h2bpos]; exact hn2
+      obtain ⟨W, hW⟩ : ∃ W : ℝ, W = V / Real.exp (-f * Real.log 10) := ⟨_, rfl⟩
+      have hW1 : 98 / 100 * L ≤ W := by
+        rw [hW, le_div_iff₀ hEpos]; nlinarith
+      have hW2 : W ≤ 102 / 100 * L := by
+        rw [hW, div_le_iff₀ hEpos]; nlinarith
+      have hprod : (n : ℝ) * V * Real.exp (-(I : ℝ) * Real.log 10) = r * W * Real.exp t := by
+        have : V = W * Real.exp (-f * Real.log 10) := by rw [hW]; field_simp
+        rw [this, mul_assoc (n : ℝ), mul_assoc W, hcomb, hr]
+        field_simp
+      rw [hprod]
+      exact guess_product_bound r W (Real.exp t) L hr1 hr2 hL1 hL2 hW1 hW2 e1 e2
+    have hcast : ((|1 - (n : ℚ) * d.value * (10 : ℚ) ^ (-(I : Int))| : ℚ) : ℝ) =
+        |1 - (n : ℝ) * V * Real.exp (-(I : ℝ) * Real.log 10)| := by
+      rw [← h10I, hV]; push_cast; rfl
+    have : ((|1 - (n : ℚ) * d.value * (10 : ℚ) ^ (-(I : Int))| : ℚ) : ℝ) ≤ ((94 / 100 : ℚ) : ℝ) := by
+      rw [hcast]; push_cast; exact hreal
+    exact_mod_cast this
 
 end BigDec
